@@ -86,6 +86,12 @@ inductive Line where
   | node (n : Node)
 deriving Repr, DecidableEq, Inhabited
 
+/-- Where `next_line` leaves the reader after the line `l`: behind the newline of a line without
+comment, ON the newline of a line that ends in a comment (`comment_body` does not consume it). -/
+def Line.endsInComment : Line → Bool
+  | .comment _ => true
+  | .node nd => nd.comment.isSome
+
 /-! ### `TryFrom<&str>` validators (`true` = `Ok`) -/
 
 /-- `BinaryConst::try_from`. -/
